@@ -19,6 +19,15 @@ Proof. intros H. unfold has, setb. apply Z.setbit_eq. exact H. Qed.
 Lemma has_u32 m b : 0 <= b < 32 -> has (u32 m) b = has m b.
 Proof. intros H. unfold has, u32. apply Z.mod_pow2_bits_low. lia. Qed.
 
+Lemma u32_range_flags z : 0 <= u32 z < 2 ^ 32.
+Proof. unfold u32. apply Z.mod_pos_bound. reflexivity. Qed.
+
+Lemma clrb_noop m b : has m b = false -> clrb m b = m.
+Proof.
+  unfold has, clrb. intros H. apply Z.bits_inj'. intros n Hn.
+  destruct (Z.eq_dec b n) as [<-|Hne]; [rewrite Z.clearbit_eq; symmetry; exact H|apply Z.clearbit_neq; exact Hne].
+Qed.
+
 #[local] Opaque has setb clrb.
 
 (* ------------------------------------------------------------------ C16_user_wins *)
@@ -39,10 +48,14 @@ Record guarded_same (c c' : chan) : Prop := {
             c_sndbuf c' = c_sndbuf c /\ c_rcvbuf c' = c_rcvbuf c /\ c_ednspsz c' = c_ednspsz c /\
             c_qcache c' = c_qcache c /\ c_udpmaxq c' = c_udpmaxq c /\ c_retry_chance c' = c_retry_chance c /\
             c_retry_delay c' = c_retry_delay c /\ c_sscb c' = c_sscb c /\ c_ldev c' = c_ldev c /\
-            c_lip4 c' = c_lip4 c /\ c_lip6 c' = c_lip6 c /\ c_ifs c' = c_ifs c }.
+            c_lip4 c' = c_lip4 c /\ c_lip6 c' = c_lip6 c }.
 
 Lemma guarded_same_refl c : guarded_same c c.
 Proof. constructor; auto. repeat split. Qed.
+
+(* installing the socket functions first changes no configuration field *)
+Lemma guarded_same_set_ifs c i c' : guarded_same (chan_set_ifs c i) c' -> guarded_same c c'.
+Proof. intros [H1 H2 H3 H4 H5 H6 H7 H8 H9 H10 H11]. constructor; assumption. Qed.
 
 Theorem sysconfig_apply_user_wins c s : guarded_same c (sysconfig_apply c s).
 Proof.
@@ -79,9 +92,9 @@ Proof. intros H. unfold opt_ndots. destruct (has m B_NDOTS); [|reflexivity]. des
 Lemma opt_timeout_other m v b' : B_TIMEOUTMS <> b' -> B_TIMEOUT <> b' -> has (fst (opt_timeout m v)) b' = has m b'.
 Proof.
   intros H1 H2. unfold opt_timeout. destruct (has m B_TIMEOUTMS).
-  - destruct (v <=? 0); [apply has_clrb_neq; exact H1|reflexivity].
+  - destruct (v <=? 0); cbn [fst]; rewrite ?(has_clrb_neq _ _ _ H1); apply has_clrb_neq; exact H2.
   - destruct (has m B_TIMEOUT); [|reflexivity].
-    destruct (0 <? v); simpl; [rewrite has_setb_neq by (try exact H1; unfold B_TIMEOUTMS; lia)|]; apply has_clrb_neq; exact H2.
+    destruct (0 <? v); cbn [fst]; [rewrite has_setb_neq by (try exact H1; unfold B_TIMEOUTMS; lia)|]; apply has_clrb_neq; exact H2.
 Qed.
 Lemma opt_lookups_other m l b' : B_LOOKUPS <> b' -> has (fst (opt_lookups m l)) b' = has m b'.
 Proof. intros H. unfold opt_lookups. destruct (has m B_LOOKUPS); [|reflexivity]. destruct l; [reflexivity|apply has_clrb_neq; exact H]. Qed.
@@ -129,13 +142,13 @@ Theorem init_user_wins e o m c :
 Proof.
   unfold init_options. intros H.
   destruct (init_by_options o m) as [c0| |] eqn:E0; simpl in H; try discriminate.
-  destruct (init_by_sysconfig nf e c0) as [c1| |] eqn:E1; simpl in H; try discriminate.
+  destruct (init_by_sysconfig nf e (chan_set_ifs c0 (e_defifs e))) as [c1| |] eqn:E1; simpl in H; try discriminate.
   destruct (init_by_defaults e c1) as [c2| |] eqn:E2; simpl in H; try discriminate.
   inversion H; subst c; clear H.
   cbn [c_flags c_tries c_ndots c_timeout c_domains c_lookups c_sortlist c_rotate].
   (* stage 2: the system configuration respects the mask *)
   assert (guarded_same c0 c1) as G.
-  { unfold init_by_sysconfig in E1. destruct (read_sysconfig nf (c_ifs c0) e) as [s|st|k]; try discriminate.
+  { apply (guarded_same_set_ifs c0 (e_defifs e)). unfold init_by_sysconfig in E1. destruct (read_sysconfig nf (c_ifs (chan_set_ifs c0 (e_defifs e))) e) as [s|st|k]; try discriminate.
     - inversion E1. apply sysconfig_apply_user_wins.
     - destruct (st =? NotModelled); [discriminate|]. inversion E1; subst. apply guarded_same_refl. }
   (* stage 3: defaults fill only what is still unset *)
@@ -146,15 +159,15 @@ Proof.
   rewrite (gs_mask _ _ G).
   (* stage 1 *)
   unfold init_by_options in E0. cbv zeta in E0. apply Ok_inj in E0; subst c0.
-  cbn [c_optmask c_flags c_tries c_ndots c_timeout c_domains c_lookups c_sortlist c_rotate] in *.
+  cbn [chan_set_ifs c_optmask c_flags c_tries c_ndots c_timeout c_domains c_lookups c_sortlist c_rotate] in *.
   repeat split.
   - intros Hb. rewrite has_u32 by bits_neq. mask_chain. rewrite Hb.
-    rewrite (gs_flags _ _ G); cbn [c_optmask c_flags]; [rewrite Hb; reflexivity|].
+    rewrite (gs_flags _ _ G); cbn [chan_set_ifs c_optmask c_flags]; [rewrite Hb; reflexivity|].
     rewrite has_u32 by bits_neq. mask_chain. exact Hb.
   - intros Hb Hv.
     assert (opt_pos (fst (opt_timeout m (o_timeout o))) B_TRIES (o_tries o) 0 = (fst (opt_timeout m (o_timeout o)), o_tries o)) as Ep.
     { unfold opt_pos. rewrite opt_timeout_other by bits_neq. rewrite Hb. destruct (Z.leb_spec (o_tries o) 0); [lia|reflexivity]. }
-    rewrite (gs_tries _ _ G); cbn [c_optmask c_tries].
+    rewrite (gs_tries _ _ G); cbn [chan_set_ifs c_optmask c_tries].
     + rewrite Ep. cbn [snd]. destruct (Z.eqb_spec (o_tries o) 0); [lia|reflexivity].
     + rewrite has_u32 by bits_neq. mask_chain. rewrite Ep. cbn [fst]. rewrite opt_timeout_other by bits_neq. exact Hb.
   - intros Hb Hv.
@@ -162,42 +175,42 @@ Proof.
     { rewrite opt_pos_other by bits_neq. rewrite opt_timeout_other by bits_neq. exact Hb. }
     assert (forall mm, has mm B_NDOTS = true -> opt_ndots mm (o_ndots o) = (mm, o_ndots o)) as Ep.
     { intros mm Hm. unfold opt_ndots. rewrite Hm. destruct (Z.ltb_spec (o_ndots o) 0); [lia|reflexivity]. }
-    rewrite (gs_ndots _ _ G); cbn [c_optmask c_ndots].
+    rewrite (gs_ndots _ _ G); cbn [chan_set_ifs c_optmask c_ndots].
     + rewrite (Ep _ Hb'). reflexivity.
     + rewrite has_u32 by bits_neq. mask_chain. rewrite (Ep _ Hb'). cbn [fst]. exact Hb'.
   - intros Hb Hv.
-    assert (opt_timeout m (o_timeout o) = (m, o_timeout o)) as Ep.
+    assert (opt_timeout m (o_timeout o) = (clrb m B_TIMEOUT, o_timeout o)) as Ep.
     { unfold opt_timeout. rewrite Hb. destruct (Z.leb_spec (o_timeout o) 0); [lia|]. unfold u32. rewrite Z.mod_small by lia. reflexivity. }
-    rewrite (gs_timeout _ _ G); cbn [c_optmask c_timeout].
+    rewrite (gs_timeout _ _ G); cbn [chan_set_ifs c_optmask c_timeout].
     + rewrite Ep. cbn [snd]. destruct (Z.eqb_spec (o_timeout o) 0); [lia|reflexivity].
-    + rewrite has_u32 by bits_neq. mask_chain. rewrite Ep. cbn [fst]. exact Hb.
+    + rewrite has_u32 by bits_neq. mask_chain. rewrite Ep. cbn [fst]. rewrite has_clrb_neq by bits_neq. exact Hb.
   - intros Hb Hne.
     assert (has (fst (opt_pos (fst (opt_pos (fst (opt_pos (fst (opt_pos (fst (opt_ndots (fst (opt_pos (fst (opt_timeout m (o_timeout o))) B_TRIES (o_tries o) 0)) (o_ndots o))) B_MAXTIMEOUTMS (o_maxtimeout o) 0)) B_SOCK_SNDBUF (o_sndbuf o) 0)) B_SOCK_RCVBUF (o_rcvbuf o) 0)) B_EDNSPSZ (o_ednspsz o) 0)) B_DOMAINS = true) as Hb'.
     { mask_chain. exact Hb. }
-    rewrite (gs_domains _ _ G); cbn [c_optmask c_domains].
+    rewrite (gs_domains _ _ G); cbn [chan_set_ifs c_optmask c_domains].
     + rewrite Hb'. destruct (o_domains o); [congruence|reflexivity].
     + rewrite has_u32 by bits_neq. mask_chain. exact Hb.
   - intros Hb l Hl.
     assert (forall mm, has mm B_LOOKUPS = true -> opt_lookups mm (o_lookups o) = (mm, Some l)) as Ep.
     { intros mm Hm. unfold opt_lookups. rewrite Hm, Hl. reflexivity. }
-    rewrite (gs_lookups _ _ G); cbn [c_optmask c_lookups].
+    rewrite (gs_lookups _ _ G); cbn [chan_set_ifs c_optmask c_lookups].
     + match goal with |- context [opt_lookups ?mm (o_lookups o)] =>
         assert (has mm B_LOOKUPS = true) as Hb' by (mask_chain; exact Hb); rewrite (Ep _ Hb') end. reflexivity.
     + rewrite has_u32 by bits_neq. mask_chain.
       match goal with |- context [opt_lookups ?mm (o_lookups o)] =>
         assert (has mm B_LOOKUPS = true) as Hb' by (mask_chain; exact Hb); rewrite (Ep _ Hb') end. cbn [fst]. exact Hb'.
   - intros Hb.
-    rewrite (gs_sortlist _ _ G); cbn [c_optmask c_sortlist].
+    rewrite (gs_sortlist _ _ G); cbn [chan_set_ifs c_optmask c_sortlist].
     + match goal with |- context [if has ?mm B_SORTLIST then _ else _] =>
         assert (has mm B_SORTLIST = true) as Hb' by (mask_chain; exact Hb); rewrite Hb' end. reflexivity.
     + rewrite has_u32 by bits_neq. mask_chain. exact Hb.
   - intros Hb.
-    rewrite (gs_rotate _ _ G); cbn [c_optmask c_rotate].
+    rewrite (gs_rotate _ _ G); cbn [chan_set_ifs c_optmask c_rotate].
     + match goal with |- context [if has ?mm B_NOROTATE then _ else _] =>
         assert (has mm B_NOROTATE = true) as Hb' by (mask_chain; exact Hb); rewrite Hb' end. reflexivity.
     + rewrite !has_u32 by bits_neq. mask_chain. rewrite Hb. apply orb_true_r.
   - intros Hb Hn.
-    rewrite (gs_rotate _ _ G); cbn [c_optmask c_rotate].
+    rewrite (gs_rotate _ _ G); cbn [chan_set_ifs c_optmask c_rotate].
     + match goal with |- context [if has ?mm B_NOROTATE then _ else has ?mm B_ROTATE] =>
         assert (has mm B_NOROTATE = false) as Hn' by (mask_chain; exact Hn);
         assert (has mm B_ROTATE = true) as Hb' by (mask_chain; exact Hb); rewrite Hn', Hb' end. reflexivity.
@@ -287,7 +300,8 @@ Proof.
   assert (opt_timeout m (if has m B_TIMEOUTMS then i32 (c_timeout c) else g) = (m, if has m B_TIMEOUTMS then c_timeout c else 0)) as E1.
   { unfold opt_timeout. destruct (has m B_TIMEOUTMS) eqn:E.
     - destruct (wf_timeout c W E) as [A B0]. rewrite i32_small by lia. destruct (Z.leb_spec (c_timeout c) 0); [lia|].
-      unfold u32. rewrite Z.mod_small by lia. reflexivity.
+      unfold u32. rewrite Z.mod_small by lia.
+      pose proof (wf_no_timeout_bit c W) as Hnt. fold m in Hnt. rewrite (clrb_noop m B_TIMEOUT Hnt). reflexivity.
     - pose proof (wf_no_timeout_bit c W) as Hnt. fold m in Hnt. rewrite Hnt. reflexivity. }
   rewrite E1. cbn [fst snd].
   rewrite (opt_pos_saved m B_TRIES (c_tries c) g (wf_tries c W)). cbn [fst snd].
@@ -353,9 +367,9 @@ Proof.
   intros W Hdom Hs Hi.
   destruct (save_init_by_options g c o m' W Hs) as (c0 & E0 & CS).
   unfold init_options in Hi. rewrite E0 in Hi. simpl in Hi.
-  destruct (init_by_sysconfig nf e c0) as [c0'| |] eqn:E1; simpl in Hi; try discriminate.
+  destruct (init_by_sysconfig nf e (chan_set_ifs c0 (e_defifs e))) as [c0'| |] eqn:E1; simpl in Hi; try discriminate.
   assert (guarded_same c0 c0') as G.
-  { unfold init_by_sysconfig in E1. destruct (read_sysconfig nf (c_ifs c0) e) as [s|st|k]; try discriminate.
+  { apply (guarded_same_set_ifs c0 (e_defifs e)). unfold init_by_sysconfig in E1. destruct (read_sysconfig nf (c_ifs (chan_set_ifs c0 (e_defifs e))) e) as [s|st|k]; try discriminate.
     - apply Ok_inj in E1. subst c0'. apply sysconfig_apply_user_wins.
     - destruct (st =? NotModelled); [discriminate|]. apply Ok_inj in E1. subst c0'. apply guarded_same_refl. }
   unfold init_by_defaults in Hi.
@@ -397,21 +411,20 @@ Qed.
 
 End Effective.
 
-(* ARES_OPT_TIMEOUT in seconds is multiplied in 32 bits; above 2147483 s the channel's timeout
-   exceeds INT_MAX ms and ares_save_options cannot represent it: init (save c) drops it *)
+(* ARES_OPT_TIMEOUT in seconds above 2147483 s is clamped to INT_MAX ms
+   (fixes/C16-timeout-seconds-clamp.patch); before the fix 3000000 s became 3 000 000 000 ms, which
+   ares_save_options could not represent, and init (save c) lost it *)
 Definition wt_chan : chan :=
-  mkChan 256 3000000000 3 1 0 false 0 0 0 0 [] [] (Some s_fb) 1232 3600 0 (2 ^ 13 + 2 ^ 21) 10 5000 0
+  mkChan 256 2147483647 3 1 0 false 0 0 0 0 [] [] (Some s_fb) 1232 3600 0 (2 ^ 13 + 2 ^ 21) 10 5000 0
          [mkServer loopback 53 53 [] 0] [] 0 [] None.
 
-Lemma save_init_timeout_refuted :
-  (* the channel timeout is what ARES_OPT_TIMEOUT = 3000000 s produces ... *)
+Lemma save_init_timeout_clamped :
   option_map c_timeout (match init_by_options (mkOpts 0 3000000 0 0 0 0 0 0 [] [] None 0 [] 0 0 0 0 0 0) 2 with Ok c => Some c | _ => None end)
     = Some (c_timeout wt_chan) /\
-  Z.testbit (c_optmask wt_chan) B_TIMEOUTMS = true /\
-  (* ... and init (save c) has lost it *)
+  c_timeout wt_chan = 2147483647 /\
   match save_options 0 wt_chan with
   | Ok (o', m') => match init_by_options o' m' with
-                   | Ok c0 => Z.testbit (c_optmask c0) B_TIMEOUTMS = false /\ c_timeout c0 = 0
+                   | Ok c0 => Z.testbit (c_optmask c0) B_TIMEOUTMS = true /\ c_timeout c0 = 2147483647
                    | _ => False
                    end
   | _ => False
